@@ -1,6 +1,8 @@
 package main
 
 import (
+	"bytes"
+	"encoding/binary"
 	"encoding/hex"
 	"fmt"
 	"os"
@@ -9,8 +11,11 @@ import (
 	"strconv"
 	"strings"
 
+	"github.com/btcsuite/btcd/btcec"
+	"github.com/btcsuite/btcd/chaincfg"
 	"github.com/btcsuite/btcd/txscript"
 	"github.com/btcsuite/btcd/wire"
+	"github.com/btcsuite/btcutil"
 	"github.com/polynetwork/poly/common"
 	cstates "github.com/polynetwork/poly/core/states"
 	"github.com/polynetwork/poly/core/store/leveldbstore"
@@ -46,6 +51,7 @@ type btcsel struct {
 	ids      map[string]int // outpoint string -> id
 	vals     map[int]uint64
 	selected map[int]bool
+	redeem   []byte
 }
 
 const btcChainID = uint64(1)
@@ -228,6 +234,31 @@ func (f *btcsel) Exec(r *hx.Run, op []string) string {
 		f.m, _ = strconv.Atoi(op[1])
 		f.n, _ = strconv.Atoi(op[2])
 		f.rk = []byte{0xaa, 1, 2, 3, 4, 5, 6, 7, 8, 9, 10, 11, 12, 13, 14, 15, 16, 17, 18, 0xbb}
+		f.redeem = nil
+		if f.m >= 1 && f.m <= f.n && f.n <= 15 { // a real m-of-n redeem script; the redeem key is its hash160
+			var addrs []*btcutil.AddressPubKey
+			for i := 0; i < f.n; i++ {
+				seed := make([]byte, 32)
+				seed[31], seed[0] = byte(i+1), 0x11
+				_, pub := btcec.PrivKeyFromBytes(btcec.S256(), seed)
+				a, err := btcutil.NewAddressPubKey(pub.SerializeCompressed(), &chaincfg.MainNetParams)
+				if err != nil {
+					return "bad-op"
+				}
+				addrs = append(addrs, a)
+			}
+			red, err := txscript.MultiSigScript(addrs, f.m)
+			if err != nil {
+				return "bad-op"
+			}
+			f.redeem = red
+			f.rk = btcutil.Hash160(red)
+		}
+		ccmc := make([]byte, 8)
+		binary.LittleEndian.PutUint64(ccmc, uint64(utils.TyMainnet))
+		if err := side_chain_manager.PutSideChain(svc, &side_chain_manager.SideChain{ChainId: btcChainID, Name: "btc", CCMCAddress: ccmc}); err != nil {
+			return "bad-op"
+		}
 		detail := &side_chain_manager.BtcTxParamDetial{PVersion: 1, FeeRate: u64(op[3]), MinChange: u64(op[4])}
 		sink := common.NewZeroCopySink(nil)
 		detail.Serialization(sink)
@@ -301,6 +332,80 @@ func (f *btcsel) Exec(r *hx.Run, op []string) string {
 			f.selected[id] = true
 		}
 		return fmt.Sprintf("ok sel=%s sum=%d fee=%d utxos=%s stxos=%s", joinInts(sel), sum, fee, joinInts(afterU), joinInts(afterS))
+	case "maketx":
+		if len(op) != 2 || f.svc == nil || f.redeem == nil {
+			return "bad-op"
+		}
+		amount, _ := strconv.ParseInt(op[1], 10, 64)
+		to, err := btcutil.NewAddressPubKeyHash(make([]byte, 20), &chaincfg.MainNetParams)
+		if err != nil {
+			return "bad-op"
+		}
+		nBefore := len(f.svc.GetNotify())
+		beforeU, _ := f.records()
+		err = btc.VerifMakeBtcTx(f.svc, btcChainID, map[string]int64{to.EncodeAddress(): amount}, make([]byte, 32), 2, f.redeem, f.rk)
+		if err != nil {
+			r.Hist("maketx.err")
+			if strings.Contains(err.Error(), "current utxo is not enough") {
+				return "err"
+			}
+			if strings.Contains(err.Error(), "wrong amount") || strings.Contains(err.Error(), "exceeds the MaxSatoshi") {
+				return "err:amount"
+			}
+			return "err:other"
+		}
+		r.Hist("maketx.ok")
+		nts := f.svc.GetNotify()
+		if len(nts) != nBefore+1 {
+			return "no-notify"
+		}
+		st, ok := nts[len(nts)-1].States.([]interface{})
+		if !ok || len(st) != 4 {
+			return "bad-notify"
+		}
+		raw, _ := hex.DecodeString(st[2].(string))
+		mtx := wire.NewMsgTx(wire.TxVersion)
+		if err := mtx.BtcDecode(bytes.NewReader(raw), wire.ProtocolVersion, wire.LatestEncoding); err != nil {
+			return "bad-tx"
+		}
+		var ins []int
+		var inTotal, outTotal int64
+		for _, in := range mtx.TxIn {
+			id, ok := f.ids[fmt.Sprintf("%x:%d", in.PreviousOutPoint.Hash[:], in.PreviousOutPoint.Index)]
+			if !ok {
+				id = -1
+				r.Viol("C26:tx-input-not-an-unspent-output", "the built transaction spends an outpoint that was never deposited")
+			}
+			if f.selected[id] {
+				r.Viol("C26:reselected", fmt.Sprintf("outpoint %d was selected by an earlier withdrawal and is spent again", id))
+			}
+			f.selected[id] = true
+			ins = append(ins, id)
+			inTotal += int64(f.vals[id])
+		}
+		var outs []string
+		for _, o := range mtx.TxOut {
+			outs = append(outs, strconv.FormatInt(o.Value, 10))
+			outTotal += o.Value
+			if o.Value < 0 {
+				r.Viol("C26:negative-output", fmt.Sprintf("the built transaction has an output of %d", o.Value))
+			}
+		}
+		if outTotal > inTotal {
+			r.Viol("C26:tx-spends-more-than-inputs", fmt.Sprintf("inputs %v total %d, outputs %v total %d (amount %d)", ins, inTotal, outs, outTotal, amount))
+		}
+		change := int64(0)
+		if len(mtx.TxOut) == 2 {
+			change = mtx.TxOut[1].Value
+		}
+		if change != inTotal-amount {
+			r.Viol("C26:change-not-inputs-minus-amount", fmt.Sprintf("inputs total %d, amount %d, change output %d", inTotal, amount, change))
+		}
+		afterU, afterS := f.records()
+		if !sameMultiset(beforeU, append(append([]int{}, afterU...), ins...)) || hasDup(ins) {
+			r.Viol("C26:unspent-record-not-reduced-by-selection", fmt.Sprintf("unspent record before %v, inputs %v, unspent record after %v", beforeU, ins, afterU))
+		}
+		return fmt.Sprintf("ok in=%s out=%s utxos=%s stxos=%s", joinInts(ins), strings.Join(outs, ","), joinInts(afterU), joinInts(afterS))
 	case "dump":
 		if f.svc == nil {
 			return "bad-op"
@@ -676,7 +781,12 @@ func (f *btcsel) genHistory(r *hx.Run, id int) {
 		if r.Rng.Bool() {
 			outs = fmt.Sprintf("%d,34", []int{22, 23, 25, 34}[r.Rng.Intn(4)])
 		}
-		res := r.Do(fmt.Sprintf("choose %d %s", amount, outs))
+		var res string
+		if r.Rng.Chance(2, 5) {
+			res = r.Do(fmt.Sprintf("maketx %d", amount))
+		} else {
+			res = r.Do(fmt.Sprintf("choose %d %s", amount, outs))
+		}
 		if res == "panic" {
 			return
 		}
